@@ -4,7 +4,7 @@ seeded random streams, malformed streams.  A token is a byte string; parameters 
 
 E = b'\x1b'
 EMU_NAMES = {0: 'ansi', 1: 'avatar', 2: 'pcboard', 3: 'ctrla', 4: 'renegade', 5: 'ascii', 6: 'petscii', 7: 'atascii', 8: 'viewdata', 9: 'mode7'}
-MODELLED = [0, 1, 2, 3, 4, 5, 7, 8, 9]          # PETSCII (6) has no Coq model: stage S only
+MODELLED = [0, 1, 2, 3, 4, 5, 7, 8, 9]          # emulations of Model/Emu.v; PETSCII (6) is Model/Petscii.v with its own entry points (Run/RunC01.v)
 ANSI_BASED = [0, 1, 2, 3, 4]
 
 def hx(b):
@@ -168,3 +168,18 @@ def malformed_stream(rng, emu, n, music=False, huge=True):
         elif r < 0.96 and music: out += rng.choice([b'\x1b[M', b'\x1b[N', b'\x1b[|'])
         else: out += b'\n' * rng.choice([1, 3, 30])
     return bytes(out[:n])
+
+# PETSCII byte streams (Model/Petscii.v; compared per character by C01 and C09)
+PET_HOT = [0x05, 0x0a, 0x0d, 0x0e, 0x11, 0x12, 0x13, 0x14, 0x1b, 0x1d, 0x20, 0x41, 0x8d, 0x91, 0x92, 0x93, 0x9d, 0xc1, 0xff, 0x8e, 0x08, 0x09, 0x02, 0x07, 0x00, 0x7f, 0x80,
+           0xa0, 0xbf, 0xc0, 0xfe, 0x60, 0x5f, 0x3f, 0x1f, 0x1c, 0x81, 0x90, 0x9f, 0x94]
+def petscii_stream(rng, w, h, n):
+    b = bytearray()
+    while len(b) < n:
+        r = rng.random()
+        if r < 0.45: b.append(rng.choice(PET_HOT))
+        elif r < 0.6: b += bytes([0x1b, rng.choice(b'QP@JKADIOZ\x1b\xd1')])
+        elif r < 0.75: b.append(rng.randrange(256))
+        elif r < 0.9: b += bytes([rng.choice([0x41, 0x20, 0xc1, 0xfe])]) * rng.choice([1, w - 1, w, w + 1])
+        else: b += b'\r' * rng.choice([1, h - 1, h, h + 2])
+    return bytes(b[:n])
+
